@@ -3,6 +3,7 @@ package checks
 import (
 	"context"
 	"fmt"
+	"io"
 	"math/rand/v2"
 	"net/http/httptest"
 	"runtime"
@@ -219,9 +220,19 @@ type c18flight struct {
 	done atomic.Bool
 }
 
+// c18body returns the request body as a reader. Every other body (by its hash) comes as a
+// reader whose length net/http cannot know in advance - a streamed or generated body, sent
+// with chunked transfer encoding: the request then has ContentLength -1.
+func c18body(body string) io.Reader {
+	if vt.Hash64("c18body/"+body)%2 == 0 {
+		return struct{ io.Reader }{strings.NewReader(body)}
+	}
+	return strings.NewReader(body)
+}
+
 func c18start(b jhttp.Bridge, p c18post, wg *sync.WaitGroup) *c18flight {
 	f := &c18flight{post: p, rec: httptest.NewRecorder()}
-	req := httptest.NewRequest(p.method, "/", strings.NewReader(p.body))
+	req := httptest.NewRequest(p.method, "/", c18body(p.body))
 	if p.ctype != "" {
 		req.Header.Set("Content-Type", p.ctype)
 	}
@@ -479,7 +490,7 @@ func c18stress(c *vt.Ctx, e vt.Env, id string, callers, per int) {
 			defer wg.Done()
 			for k := 0; k < per; k++ {
 				p := c18randomPost(rng, fmt.Sprintf("s%d_%d", g, k))
-				req := httptest.NewRequest(p.method, "/", strings.NewReader(p.body))
+				req := httptest.NewRequest(p.method, "/", c18body(p.body))
 				if p.ctype != "" {
 					req.Header.Set("Content-Type", p.ctype)
 				}
